@@ -615,6 +615,18 @@ def main_case(ctx, case, prop, compare=True):
         for key, what, where in oracle_run(res, feed, grass):
             if key in ("feed-overuse", "grass-overuse", "negative-starving"):
                 ctx.violation("main:" + key, what, dict(case, **where))
+        # the starving count is the remainder of the herd that was fed: herd at feeding time minus the animals counted as fed
+        if len(calls) == n * ns:
+            by_name = {a.animal_type: a for a in res["animals"]}
+            for ci_, c in enumerate(calls):
+                a = by_name.get(c["animal"])
+                if a is None:
+                    continue
+                m_ = ci_ // ns
+                got, want = float(a.population_starving_pre_slaughter[m_ + 1]), c["pop"] - c["fed"]
+                if abs(got - want) > 1e-9 * max(1.0, abs(c["pop"])):
+                    ctx.violation("main:starving-remainder", "%s month %d: %r counted as starving, herd %r minus fed %r is %r" % (c["animal"], m_, got, c["pop"], c["fed"], want),
+                                  dict(case, species=c["animal"], month=m_))
         for a in res["animals"]:
             st_ = [float(x) for x in a.population_starving_pre_slaughter]
             P = [float(x) for x in a.population]
